@@ -128,6 +128,68 @@ Section Node.
     intros Hs. unfold cap_verify, att_verify, att_validate_basic. cbn [ct_hardware ct_att ct_rak ct_rek a_version a_quote].
     rewrite Hs. reflexivity.
   Qed.
+  (* ---------- registry layer ---------- *)
+
+  Lemma version_eqb_eq a b : version_eqb a b = true <-> a = b.
+  Proof.
+    destruct a as [[a1 a2] a3], b as [[b1 b2] b3]. unfold version_eqb. cbn [fst snd]. split.
+    - intros H. apply andb_true_iff in H as [H H3]. apply andb_true_iff in H as [H1 H2].
+      apply N.eqb_eq in H1, H2, H3. congruence.
+    - intros H. injection H as -> -> ->. rewrite !N.eqb_refl. reflexivity.
+  Qed.
+
+  (* acceptance by VerifyNodeRuntimeEnclaveIDs: either the node claims no TEE and the runtime requires none, or the
+     capability's hardware is the runtime's, the FIRST deployment with the node's runtime version is used, its
+     constraints decode, and the capability binds under them *)
+  Lemma registry_accept_binds_l cfg0 ts height node_id is261 rt reg u :
+    verify_enclave_ids NP env cfg0 ts height node_id is261 rt reg = NOk u ->
+    (nr_tee rt = None /\ rr_hw reg = 0) \/
+    exists cap d pre post a sc raw c mre mrs rd,
+      nr_tee rt = Some cap /\ ct_hardware cap = rr_hw reg /\
+      rr_deployments reg = pre ++ d :: post /\ d_version d = nr_version rt /\
+      (forall y, In y pre -> d_version y <> nr_version rt) /\
+      ct_att cap = Some a /\ d_tee d = Some sc /\
+      Binds (cfg_of cfg0) ts height sc node_id cap a raw c mre mrs rd.
+  Proof.
+    unfold verify_enclave_ids. intros H.
+    destruct (nr_tee rt) as [cap|] eqn:ET.
+    - destruct (ct_hardware cap =? rr_hw reg) eqn:EH; cbn [ncheck nbind] in H; [|discriminate H].
+      apply N.eqb_eq in EH.
+      destruct (find (fun d => version_eqb (d_version d) (nr_version rt)) (rr_deployments reg)) as [d|] eqn:EF;
+        [|discriminate H].
+      destruct (find_first _ _ _ EF) as (pre & post & A & B & C).
+      apply version_eqb_eq in B.
+      apply registration_binds_rak_l in H as (a & sc & raw & c & mre & mrs & rd & E1 & E2 & Bd).
+      assert (C' : forall y, In y pre -> d_version y <> nr_version rt).
+      { intros y Hy Heq. specialize (C y Hy). apply version_eqb_eq in Heq. congruence. }
+      right. exists cap, d, pre, post, a, sc, raw, c, mre, mrs, rd.
+      split; [reflexivity|]. split; [exact EH|]. split; [exact A|]. split; [exact B|]. split; [exact C'|].
+      split; [exact E1|]. split; [exact E2|]. exact Bd.
+    - destruct (0 =? rr_hw reg) eqn:EH; cbn [ncheck nbind] in H; [|discriminate H].
+      apply N.eqb_eq in EH. left. auto.
+  Qed.
+
+  (* outside genesis / sanity checking the registration check is exactly VerifyNodeRuntimeEnclaveIDs ... *)
+  Lemma register_tee_check_strict_l cfg0 ts height node_id is261 rt reg :
+    register_tee_check NP env cfg0 ts height node_id is261 rt reg false false =
+    verify_enclave_ids NP env cfg0 ts height node_id is261 rt reg.
+  Proof. unfold register_tee_check. destruct (verify_enclave_ids _ _ _ _ _ _ _ _ _); reflexivity. Qed.
+
+  (* ... and at genesis (or in the genesis sanity checker) a failing attestation never rejects the node
+     (api.go:626-634: "These checks are skipped at time of genesis") *)
+  Lemma genesis_ignores_attestation_l cfg0 ts height node_id is261 rt reg g s r :
+    g || s = true -> register_tee_check NP env cfg0 ts height node_id is261 rt reg g s <> NRej r.
+  Proof.
+    unfold register_tee_check. intros Hg. rewrite Hg.
+    destruct (verify_enclave_ids _ _ _ _ _ _ _ _ _); discriminate.
+  Qed.
+
+  (* determinism: the verdict is a function of the process switches, the consensus parameters, the block time and
+     height, the node descriptor's runtime entry and the registry's runtime descriptor -- nothing else is an input *)
+  Lemma registry_verdict_deterministic_l env2 cfg1 cfg2 ts1 ts2 h1 h2 nid1 nid2 f1 f2 rt1 rt2 reg1 reg2 :
+    env = env2 -> cfg1 = cfg2 -> ts1 = ts2 -> h1 = h2 -> nid1 = nid2 -> f1 = f2 -> rt1 = rt2 -> reg1 = reg2 ->
+    verify_enclave_ids NP env cfg1 ts1 h1 nid1 f1 rt1 reg1 = verify_enclave_ids NP env2 cfg2 ts2 h2 nid2 f2 rt2 reg2.
+  Proof. intros. subst. reflexivity. Qed.
 End Node.
 
 (* ---------- non-vacuity ---------- *)
@@ -156,3 +218,41 @@ Example ex_registration :
     (mkCap 0 toy_rak None (Some (mkAtt 1 (QKPcs toy_sgx_raw toy_coll) 990 []))) = NRej NInvalidHardware /\
   cap_verify toyNP toy_env None 50 1000 (Some toy_sc) [7] true (toy_cap 990 toy_rak) = NRej NAttMalformed.
 Proof. vm_compute. repeat split. Qed.
+
+(* the process switches ARE an input: replicas started with different unsafe debug flags disagree on a debug enclave *)
+Definition toy_sgx_raw_debug : bytes := firstn 96 toy_sgx_raw ++ [2] ++ skipn 97 toy_sgx_raw.
+Lemma verdict_depends_on_process_switches_l :
+  exists NP cfg ts h nid rt reg,
+    verify_enclave_ids NP (mkEnv true false []) cfg ts h nid true rt reg = NOk tt /\
+    verify_enclave_ids NP (mkEnv false false []) cfg ts h nid true rt reg = NRej (NQuote RDebugMismatch).
+Proof.
+  exists toyNP, (Some toy_cfg), 50%Z, 1000, [7],
+    (mkNodeRt (1, 2, 3) (Some (mkCap 1 toy_rak (Some [9; 9])
+       (Some (mkAtt 1 (QKPcs toy_sgx_raw_debug toy_coll) 990 (toy_rak ++ repeat 0xDA 4)))))),
+    (mkRegRt 1 [mkDep (0, 0, 1) None; mkDep (1, 2, 3) (Some toy_sc); mkDep (1, 2, 3) None]).
+  vm_compute. split; reflexivity.
+Qed.
+
+Example ex_registry :
+  let cap := toy_cap 990 toy_rak in
+  let reg := mkRegRt 1 [mkDep (0, 0, 1) None; mkDep (1, 2, 3) (Some toy_sc); mkDep (1, 2, 3) None] in
+  verify_enclave_ids toyNP toy_env (Some toy_cfg) 50 1000 [7] true (mkNodeRt (1, 2, 3) (Some cap)) reg = NOk tt /\
+  verify_enclave_ids toyNP toy_env (Some toy_cfg) 50 1000 [7] true (mkNodeRt (0, 0, 1) (Some cap)) reg = NRej NConstraintsMalformed /\
+  verify_enclave_ids toyNP toy_env (Some toy_cfg) 50 1000 [7] true (mkNodeRt (9, 9, 9) (Some cap)) reg = NRej NUnknownVersion /\
+  verify_enclave_ids toyNP toy_env (Some toy_cfg) 50 1000 [7] true (mkNodeRt (1, 2, 3) None) reg = NRej NHardwareMismatch /\
+  verify_enclave_ids toyNP toy_env (Some toy_cfg) 50 1000 [7] true (mkNodeRt (1, 2, 3) None) (mkRegRt 0 []) = NOk tt /\
+  register_tee_check toyNP toy_env (Some toy_cfg) 50 1000 [7] true (mkNodeRt (9, 9, 9) (Some cap)) reg true false = NOk tt.
+Proof. vm_compute. repeat split. Qed.
+
+(* REFUTED: "the report data binds the REK and the node id".  The quote commits to the RAK only; REK, node id and
+   height are bound by the RAK's attestation signature: the same quote registers under two node ids with two REKs. *)
+Lemma report_data_binds_rek_and_node_id_refuted_l :
+  exists NP env cfg ts h sc rak q s1 s2 nid1 nid2 rek1 rek2,
+    nid1 <> nid2 /\ rek1 <> rek2 /\
+    cap_verify NP env cfg ts h sc nid1 true (mkCap 1 rak rek1 (Some (mkAtt 1 q 990 s1))) = NOk tt /\
+    cap_verify NP env cfg ts h sc nid2 true (mkCap 1 rak rek2 (Some (mkAtt 1 q 990 s2))) = NOk tt.
+Proof.
+  exists toyNP, toy_env, (Some toy_cfg), 50%Z, 1000, (Some toy_sc), toy_rak, (QKPcs toy_sgx_raw toy_coll),
+    (toy_rak ++ repeat 0xDA 4), (toy_rak ++ repeat 0xDA 4), [7], [8], (Some [9; 9]), None.
+  split; [discriminate|]. split; [discriminate|]. vm_compute. split; reflexivity.
+Qed.
